@@ -287,28 +287,70 @@ Proof.
   noob_tac. apply IHk. intros t Ht. apply H. lia.
 Qed.
 
-Lemma capture_loop_noob : forall p cl lbase k pc acc,
+Lemma noob_bind_vret : forall A B (a : A) (f : A -> VM B), noob (f a) -> noob (vbind (vret a) f).
+Proof. intros A B a f H s c E. unfold vbind, vret in E. eapply H. eassumption. Qed.
+
+Lemma word_of_zth : forall code t w, zth code t = Some w -> W.word code t = w.
+Proof. intros code t w H. unfold W.word. rewrite pzth_eq. rewrite H. reflexivity. Qed.
+
+Lemma capture_loop_noob : forall cl lbase k pc acc,
   closure_ok cl ->
   (forall t, pc <= t < pc + Z.of_nat k ->
       W.capture_ok (fn_of (cl_proto cl)) (W.tags_of (fn_of (cl_proto cl))) t = true) ->
-  p = cl_proto cl ->
-  noob (capture_loop p cl lbase k pc acc).
+  noob (capture_loop (cl_proto cl) cl lbase k pc acc).
 Proof.
-  intros p cl lbase k. induction k; intros pc acc Hc H Hp; simpl; [auto with noob|].
+  intros cl lbase k. induction k; intros pc acc Hc H; simpl; [auto with noob|].
   assert (Hcap := H pc ltac:(lia)).
-  pose proof (VM.WfFacts.capture_facts _ _ Hcap) as [Hr [Hup _]].
-  destruct (fn_of_fields (cl_proto cl)) as [Hcode _]. rewrite Hcode in Hr. rewrite plen_eq in Hr.
-  subst p.
-  apply noob_bind; [apply code_at_noob; assumption|]. intro inst.
-  (* the word read is the word the checker looked at *)
-  intros s c E.
-  assert (Hin : forall s0, code_at (cl_proto cl) pc s0 = VRet inst s0 \/ True) by (intros; right; exact I).
-  revert s c E.
-  change (noob (match op_of_code (opGetOpCode inst) with
-                | Some OP_MOVE => vdo u <- findUpvalue (lbase + opGetArgB inst);
-                    capture_loop (cl_proto cl) cl lbase k (pc + 1) (u :: acc)
-                | Some OP_GETUPVAL => vdo u <- get_upval cl (opGetArgB inst);
-                    capture_loop (cl_proto cl) cl lbase k (pc + 1) (u :: acc)
-                | _ => vunsup 105
-                end)).
-Abort.
+  pose proof (VM.WfFacts.capture_facts _ _ Hcap) as [Hr _].
+  destruct (fn_of_fields (cl_proto cl)) as [Hcode [_ [_ [_ [Hnup _]]]]].
+  rewrite Hcode in Hr. rewrite plen_eq in Hr.
+  destruct (zth_some_range _ (xp_code (cl_proto cl)) pc Hr) as [w Hw].
+  unfold code_at. rewrite Hw. apply noob_bind_vret.
+  unfold W.capture_ok in Hcap. apply andb_true_iff in Hcap. destruct Hcap as [_ Hcap].
+  rewrite Hcode in Hcap. rewrite (word_of_zth _ _ _ Hw) in Hcap.
+  assert (IH : forall u, noob (capture_loop (cl_proto cl) cl lbase k (pc + 1) (u :: acc))).
+  { intro u. apply IHk; [assumption|]. intros t Ht. apply H. lia. }
+  destruct (op_of_code (opGetOpCode w)) as [o|]; [|discriminate].
+  destruct o; try discriminate.
+  - apply noob_bind; [auto with noob|exact IH].
+  - apply noob_bind; [|exact IH]. apply get_upval_noob; [assumption|apply getB_nonneg|exact Hcap].
+Qed.
+
+Lemma loadnil_loop_noob : forall k i, noob (loadnil_loop i k).
+Proof. induction k; intros; simpl; noob_tac. Qed.
+
+Lemma setlist_loop_noob : forall k tb ra off i, noob (setlist_loop tb ra off i k).
+Proof. induction k; intros; simpl; noob_tac. Qed.
+
+#[export] Hint Resolve loadnil_loop_noob setlist_loop_noob getA_nonneg getB_nonneg getC_nonneg getBx_nonneg
+  rkValue_noob kstring_noob rkString_noob get_upval_noob : noob.
+
+Ltac split_ands :=
+  repeat match goal with H : _ && _ = true |- _ => apply andb_true_iff in H; destruct H end.
+
+Section Main.
+Variable ml : option nat -> VM unit.
+Variable gf : builtin -> VM Z.
+Hypothesis Hml : forall b, noob (ml b).
+Hypothesis Hgf : forall b, noob (gf b).
+
+Lemma noob_callGFunction : forall t, noob (callGFunction gf t).
+Proof. intros. unfold callGFunction. noob_tac. Qed.
+
+Hint Resolve noob_callR noob_Call noob_getField noob_setField noob_objectArith noob_stringConcat
+  noob_lessThan noob_lessEq noob_equals noob_callGFunction : noob.
+
+(* every instruction except OP_TFORLOOP (see the note at wf_exec_op_noob) *)
+Theorem wf_exec_op_noob_lemma : forall cl cf inst base o,
+  closure_ok cl ->
+  0 <= fr_pc cf - 1 ->
+  op_of_code (opGetOpCode inst) = Some o ->
+  W.inst_ok (fn_of (cl_proto cl)) (W.tags_of (fn_of (cl_proto cl))) (fr_pc cf - 1) inst = true ->
+  o <> OP_TFORLOOP ->
+  noob (exec_op ml gf cl cf inst base).
+Proof.
+  intros cl cf inst base o Hcl Hpc Hop H Hno.
+  destruct (fn_of_fields (cl_proto cl)) as [Hcode [Hkinds [Hnsc [Hnups [Hnup Hnregs]]]]].
+  unfold exec_op. rewrite Hop. unfold W.inst_ok in H. rewrite Hop in H.
+  destruct o; cbn [W.modes_ok opProps Type_ ModeArgB ModeArgC W.mode_ok] in H; split_ands;
+    try solve [noob_tac].
